@@ -12,7 +12,7 @@ fn fault(rng: &mut Rng, t: &mut Vec<i64>) {
     let digits: Vec<usize> = (0..t.len()).filter(|&i| t[i] < 64).collect();
     let lastdigits: Vec<usize> = (0..t.len()).filter(|&i| t[i] < 32).collect();
     let at = rng.below(t.len() as u64 + 1) as usize;
-    match rng.below(9) {
+    match rng.below(12) {
         0 => t.insert(at, 0),                                              // field added
         1 if !digits.is_empty() => { let i = *rng.pick(&digits); t.remove(i); } // digit dropped
         2 if !lastdigits.is_empty() => { let i = *rng.pick(&lastdigits); t[i] += 32; } // continuation bit
@@ -30,6 +30,23 @@ fn fault(rng: &mut Rng, t: &mut Vec<i64>) {
             for (k, d) in crate::c11::generate_own(&[v]).into_iter().enumerate() { t.insert(i + k, d); }
         }
         7 if !lastdigits.is_empty() => { let i = *rng.pick(&lastdigits); t[i] = (t[i] + 2) % 32; } // small delta change
+        8 => { // a segment with hundreds of fields (counts around multiples of 256)
+            let k = *rng.pick(&[250usize, 251, 252, 255, 256, 257, 259, 260, 261, 511, 512, 513, 516, 517]);
+            for _ in 0..k { t.insert(at, 0); }
+        }
+        9 => { // a character >= U+0100 whose low byte is a base64 alphabet byte (U+0141 -> 'A', U+012B -> '+', ...)
+            let low = *rng.pick(&[b'A', b'B', b'+', b'/', b'a', b'g', b'0', b'9']);
+            let ch = char::from_u32(0x100 * (1 + rng.below(30) as u32) + low as u32).unwrap_or('Ł');
+            let mut buf = [0u8; 4];
+            for (k, b) in ch.encode_utf8(&mut buf).bytes().enumerate() { t.insert(at + k, 100 + b as i64); }
+        }
+        10 if !lastdigits.is_empty() => { // a 13-digit value with its top bits set, as a position field
+            let i = *rng.pick(&lastdigits);
+            t.remove(i);
+            let pat: &[i64] = *rng.pick(&[&[62, 63, 63, 63, 63, 63, 63, 63, 63, 63, 63, 63, 31][..], &[63, 63, 63, 63, 63, 63, 63, 63, 63, 63, 63, 63, 31][..],
+                                          &[32, 32, 32, 32, 32, 32, 32, 32, 32, 32, 32, 32, 16][..], &[62, 63, 63, 63, 63, 63, 63, 63, 63, 63, 63, 63, 15][..]]);
+            for (k, d) in pat.iter().enumerate() { t.insert(i + k, *d); }
+        }
         _ => { t.insert(at, 64); }
     }
 }
